@@ -34,6 +34,9 @@ func main() {
 		if handled, code := checks.ReplayHostile(os.Args[3]); handled {
 			os.Exit(code)
 		}
+		if handled, code := checks.ReplayDecoder(os.Args[3]); handled {
+			os.Exit(code)
+		}
 		os.Exit(c.Replay(os.Args[3]))
 	}
 	if tier != "quick" && tier != "thorough" {
